@@ -284,6 +284,24 @@ def _is_int(x):
     return isinstance(x, int)
 
 
+_EXO_SAMPLE = {int: {'o': 'int', 'v': 1}, str: {'o': 'str', 'v': 'a'}, bytes: {'o': 'bytes', 'v': 'b'}, float: {'o': 'float', 'v': 1.5},
+               bool: {'o': 'bool', 'v': True}}
+
+
+def _exo_fixed(hint, classes):
+    """Entry for a hint equivalent to the fixed-length tuple hint over ``classes``."""
+    def conf(x):
+        return isinstance(x, tuple) and len(x) == len(classes) and all(
+            isinstance(i, c) and (c is not float or not isinstance(i, bool)) for i, c in zip(x, classes))
+    ok = {'o': 'tuple', 'i': [_EXO_SAMPLE[c] for c in classes]}
+    bad = [{'o': 'tuple', 'i': ok['i'] + [ok['i'][0]]}, {'o': 'tuple', 'i': ok['i'][:-1]}, {'o': 'tuple', 'i': ok['i'][1:]}]
+    for j in range(len(classes)):
+        items = list(ok['i'])
+        items[j] = {'o': 'none'}
+        bad.append({'o': 'tuple', 'i': items})
+    return {'hint': hint, 'ok': [ok], 'conf': conf, 'rej': lambda x: not conf(x), 'bad': bad}
+
+
 EXOTICS = {
     'TypedDict': {'hint': lambda: _ExoTD,
                   'ok': [{'o': 'dict', 'i': [[{'o': 'str', 'v': 'x'}, {'o': 'int', 'v': 1}]]}],
@@ -305,6 +323,13 @@ EXOTICS = {
                     'conf': lambda x: (isinstance(x, tuple) and len(x) >= 2 and _is_int(x[0]) and isinstance(x[-1], bytes)
                                        and all(isinstance(i, str) for i in x[1:-1])),
                     'rej': lambda x: not isinstance(x, tuple)},
+    # PEP 646 unpacked *fixed-length* child tuples at every position: equivalent to the flattened fixed-length tuple hint, so
+    # whatever does not conform must be rejected (fixed-length tuples are checked at every position)
+    'Unpacked646FixedFirst': _exo_fixed(lambda: tuple[*tuple[str, bytes], int], (str, bytes, int)),
+    'Unpacked646FixedMid': _exo_fixed(lambda: tuple[int, *tuple[str, bytes], float], (int, str, bytes, float)),
+    'Unpacked646FixedLast': _exo_fixed(lambda: tuple[int, *tuple[str, bytes]], (int, str, bytes)),
+    'Unpacked646FixedOnly': _exo_fixed(lambda: tuple[*tuple[str, bytes]], (str, bytes)),
+    'Unpack646Typing': _exo_fixed(lambda: tuple[typing.Unpack[tuple[int, str]], float, bool], (int, str, float, bool)),
     'Alias695Union': {'hint': lambda: _EXO695['ExoAI'], 'ok': [{'o': 'str', 'v': 'a'}, {'o': 'int', 'v': 1}],
                       'conf': lambda x: isinstance(x, (int, str)), 'rej': lambda x: not isinstance(x, (int, str))},
     'Alias695Generic': {'hint': lambda: _EXO695['ExoAlG'][int],
@@ -1340,6 +1365,8 @@ def gen_violating(rng, h, maxlen=4, tower=False, env=None):
         choices += ['validator', 'inner']
     if k in ('union', 'pipe', 'opt'):
         choices += ['inner']
+    if k == 'exo' and EXOTICS[h['n']].get('bad'):
+        choices += ['exo_bad', 'exo_bad', 'exo_bad']
     rng.shuffle(choices)
     for where in choices:
         try:
@@ -1360,6 +1387,8 @@ def _gen_violating_at(rng, h, where, maxlen, tower, env):
     k = h['k']
     if where == 'top':
         return gen_violating_leaf(rng, h, tower, env)
+    if where == 'exo_bad':
+        return rng.choice(EXOTICS[h['n']]['bad'])
     if where in ('shelf_values', 'shelf_keys'):
         n = rng.randint(1, maxlen)
         items = []
